@@ -142,7 +142,11 @@ pub fn sched_point(name: &str) {
         if s.order[s.next] == name {
             s.next += 1;
             if let Ok(path) = std::env::var("DELTA_VERIF_SCHED_LOG") {
-                if let Ok(mut f) = std::fs::OpenOptions::new().append(true).create(true).open(path) {
+                if let Ok(mut f) = std::fs::OpenOptions::new()
+                    .append(true)
+                    .create(true)
+                    .open(path)
+                {
                     let _ = writeln!(f, "{name}");
                 }
             }
@@ -330,7 +334,8 @@ pub fn run_driver() -> ! {
             "render" => {
                 let id = opt_str(&req, "id").unwrap_or_default();
                 let trace = req.get("trace").and_then(|t| t.as_bool()).unwrap_or(false);
-                let trace_from = req.get("trace_from").and_then(|t| t.as_u64()).unwrap_or(0) as usize;
+                let trace_from =
+                    req.get("trace_from").and_then(|t| t.as_u64()).unwrap_or(0) as usize;
                 match configs.get(&id) {
                     None => json!({"error": "no such config"}),
                     Some(entry) => {
